@@ -38,6 +38,16 @@ Theorem pratt_complete_refuted :
 Proof. exact pratt_complete_refuted_proof. Qed.
 Print Assumptions pratt_complete_refuted.
 
+(* The same at the entry point that is diffed against js.Parse: a grammatical expression (without a `++x ** y` node, not
+   starting with the identifier `let`) given as a whole program is parsed to the single ExprStmt with exactly that tree.
+   Missing: as for pratt_complete_partial. *)
+Theorem program_of_expression_partial :
+  forall ts t, derives true Expression ts t -> no_pue t = true ->
+    (forall k r, ts = k :: r -> ty k <> tt_LetToken) ->
+    parse_program ts = Ok [SExpr t].
+Proof. exact program_of_expression_proof. Qed.
+Print Assumptions program_of_expression_partial.
+
 (* ---- soundness: what is accepted is grammatical, with the grammar's tree ------------------------------------------------------- *)
 
 (* Whatever the model accepts is a derivation of the returned tree once the trailing commas that the code lets through
